@@ -6,7 +6,7 @@ RS_LIMIT = {1: 255, 28: 255, 24: 15}
 
 def codec_tuple(kind):
     """kind in {'rs8','rs2m8','rs2m4','ldpc'} -> (codec id, m)"""
-    return {'rs8': (1, 0), 'rs2m8': (2, 8), 'rs2m4': (2, 4), 'ldpc': (3, 0)}[kind]
+    return {'rs8': (1, 0), 'rs2m8': (2, 8), 'rs2m4': (2, 4), 'ldpc': (3, 0), '2d': (5, 0)}[kind]
 
 def min_len(kind, k, n):
     if kind in ('rs8', 'rs2m8'): return k
@@ -37,7 +37,7 @@ def decoder_case(name, cfg, order, api='stream', finish=True, cb='none', trace=F
     if cb != 'none':
         b.append('cb %d %s' % (sid, cb))
     b += [cfg.payload_line(sid), 'cwdump %d' % sid]
-    if matrix and cfg.codec == 3:
+    if matrix and cfg.codec in (3, 5):
         b.append('matrix %d' % sid)
     steps = []
     if api == 'stream':
@@ -45,7 +45,7 @@ def decoder_case(name, cfg, order, api='stream', finish=True, cb='none', trace=F
             steps.append('recv %d %d' % (sid, e))
             if trace:
                 steps += ['complete %d' % sid, 'sources %d' % sid]
-                if matrix and cfg.codec == 3:
+                if matrix and cfg.codec in (3, 5):
                     steps.append('matrix %d' % sid)
     else:
         lst = ','.join(str(e) for e in sorted(set(order))) or '-'
@@ -65,7 +65,7 @@ def decoder_case(name, cfg, order, api='stream', finish=True, cb='none', trace=F
 
 def encoder_case(name, cfg, slots='own', sid=0, role=1, esis=None):
     b = ['new %d %d %d' % (sid, cfg.codec, role), cfg.params_line(sid), cfg.payload_line(sid), 'cwdump %d' % sid]
-    if cfg.codec == 3:
+    if cfg.codec in (3, 5):
         b.append('matrix %d' % sid)
         b.append('ctrl %d lastnull' % sid)
     for i, e in enumerate(esis if esis is not None else range(cfg.k, cfg.n)):
@@ -114,3 +114,24 @@ def ldpc_loss_subset(rng, cfg, around_threshold=True):
     else:
         want = rng.randint(0, n)
     return sorted(rng.sample(range(n), want))
+
+
+def dense_column_configs(rng, count):
+    """LDPC sessions whose matrix has heavy columns (small k, many equations, N1 up to n-k), received repairs first and one source
+    symbol last: a single submission then brings many equations to one unknown at once (long step-3 lists, deep recursion)"""
+    out = []
+    for j in range(count):
+        k = rng.choice([1, 2, 2, 3, 4]); r = rng.randint(9, 40)
+        N1 = rng.choice([3, 9, 12, r, r - 1, rng.randint(3, r)])
+        cfg = Cfg('ldpc', k, r, length=rng.choice([1, 5, 37]), N1=max(3, min(N1, r)), seed=rng.randint(1, 2 ** 31 - 2), payload='rand', pseed=j)
+        reps = list(range(k, cfg.n))
+        mode = j % 3
+        if mode == 1: rng.shuffle(reps)
+        if mode == 2: reps = rng.sample(reps, rng.randint(len(reps) - 2, len(reps)))
+        srcs = list(range(k)); rng.shuffle(srcs)
+        out.append((cfg, reps + srcs[:rng.randint(1, k)]))
+    return out
+
+def dense_column_cases(rng, name, count, trace=False, cb_choices=('none', 'buf', 'null', 'mix'), apis=('stream', 'stream', 'stream', 'table')):
+    return [decoder_case('%s%d' % (name, j), cfg, order, api=apis[j % len(apis)], finish=True, cb=rng.choice(cb_choices), trace=trace)
+            for j, (cfg, order) in enumerate(dense_column_configs(rng, count))]
